@@ -41,3 +41,84 @@ package options
 //@ prop C04
 //@ nomod
 //@ ensures[returns-the-stored-verifiers] result == o.jwtBearerVerifiers
+
+// ------------------------------------------------------------------ C07: legacy header flags become the same injection rules
+// one header, one value, taken from one session claim
+//@ define claimHeader(h Header, name string, claim string, prefix string) bool = h.Name == name && len(h.Values) == 1
+//@     && h.Values[0].SecretSource == nil && h.Values[0].ClaimSource != nil && h.Values[0].ClaimSource.Claim == claim
+//@     && h.Values[0].ClaimSource.Prefix == prefix
+
+//@ func getPassAccessTokenHeader
+//@ nomod
+//@ fresh
+//@ prop C07
+//@ ensures[access-token-header] claimHeader(result, "X-Forwarded-Access-Token", "access_token", "") && result.Values[0].ClaimSource.BasicAuthPassword == nil
+
+//@ func getAuthorizationHeader
+//@ nomod
+//@ fresh
+//@ prop C07
+//@ ensures[bearer-id-token-header] claimHeader(result, "Authorization", "id_token", "Bearer ") && result.Values[0].ClaimSource.BasicAuthPassword == nil
+
+//@ func getPreferredUsernameHeader
+//@ nomod
+//@ fresh
+//@ prop C07
+//@ ensures[preferred-username-header] claimHeader(result, "X-Forwarded-Preferred-Username", "preferred_username", "") && result.Values[0].ClaimSource.BasicAuthPassword == nil
+
+//@ func getXAuthRequestAccessTokenHeader
+//@ nomod
+//@ fresh
+//@ prop C07
+//@ ensures[auth-request-access-token-header] claimHeader(result, "X-Auth-Request-Access-Token", "access_token", "") && result.Values[0].ClaimSource.BasicAuthPassword == nil
+
+//@ func getBasicAuthHeader
+//@ nomod
+//@ fresh
+//@ prop C07
+//@ ensures[basic-authorization-from-user-or-email] claimHeader(result, "Authorization", ite(preferEmailToUser, "email", "user"), "Basic ")
+//@     && result.Values[0].ClaimSource.BasicAuthPassword != nil && bytes(result.Values[0].ClaimSource.BasicAuthPassword.Value) == basicAuthPassword
+
+//@ func getPassUserHeaders
+//@ nomod
+//@ fresh
+//@ prop C07
+//@ ensures[groups-user-and-email-headers] claimHeader(result[0], "X-Forwarded-Groups", "groups", "")
+//@     && (preferEmailToUser ==> len(result) == 2 && claimHeader(result[1], "X-Forwarded-User", "email", ""))
+//@     && (!preferEmailToUser ==> len(result) == 3 && claimHeader(result[1], "X-Forwarded-User", "user", "") && claimHeader(result[2], "X-Forwarded-Email", "email", ""))
+
+//@ func getXAuthRequestHeaders
+//@ nomod
+//@ fresh
+//@ prop C07
+//@ ensures[the-four-auth-request-headers] len(result) == 4 && claimHeader(result[0], "X-Auth-Request-User", "user", "")
+//@     && claimHeader(result[1], "X-Auth-Request-Email", "email", "") && claimHeader(result[2], "X-Auth-Request-Preferred-Username", "preferred_username", "")
+//@     && claimHeader(result[3], "X-Auth-Request-Groups", "groups", "")
+
+//@ func (*LegacyHeaders).getRequestHeaders
+//@ prop C07
+//@ loop 0 invariant[earlier-headers-follow-the-strip-option] rangeindex >= -1 && rangeindex < len(requestHeaders)
+//@     && forall j int :: 0 <= j && j <= rangeindex ==> requestHeaders[j].PreserveRequestValue == !l.SkipAuthStripHeaders
+//@ ensures[client-values-preserved-only-when-strip-is-skipped] forall j int :: 0 <= j && j < len(result) ==> result[j].PreserveRequestValue == !l.SkipAuthStripHeaders
+//@ ensures[headers-only-for-enabled-flags] (called(getBasicAuthHeader) <==> l.PassBasicAuth && l.BasicAuthPassword != "")
+//@     && (called(getPassUserHeaders) <==> l.PassBasicAuth || l.PassUserHeaders) && (called(getPassAccessTokenHeader) <==> l.PassAccessToken)
+//@     && (called(getAuthorizationHeader) <==> l.PassAuthorization)
+//@ ensures[no-flag-no-header] !l.PassBasicAuth && !l.PassUserHeaders && !l.PassAccessToken && !l.PassAuthorization ==> len(result) == 0
+
+//@ func (*LegacyHeaders).getResponseHeaders
+//@ prop C07
+//@ ensures[headers-only-for-enabled-flags] (called(getXAuthRequestHeaders) <==> l.SetXAuthRequest)
+//@     && (called(getXAuthRequestAccessTokenHeader) <==> l.SetXAuthRequest && l.PassAccessToken)
+//@     && (called(getBasicAuthHeader) <==> l.SetBasicAuth) && (called(getAuthorizationHeader) <==> l.SetAuthorization)
+//@ ensures[no-flag-no-header] !l.SetXAuthRequest && !l.SetBasicAuth && !l.SetAuthorization ==> len(result) == 0
+
+//@ func (*LegacyHeaders).convert
+//@ prop C07
+//@ ensures[request-and-response-lists] ret0 == ret(getRequestHeaders) && ret1 == ret(getResponseHeaders)
+
+//@ func (*LegacyOptions).ToOptions
+//@ prop C07 C17
+//@ at call convert#2 assert[converted-lists-become-the-injection-options] l.Options.InjectRequestHeaders == ret0(convert#1)
+//@     && l.Options.InjectResponseHeaders == ret1(convert#1) && ret1(convert#0) == nil
+//@ at call convert#1 assert[headers-converted-from-the-legacy-header-flags] recv(convert#1) == &l.LegacyHeaders && l.Options.UpstreamServers == ret0(convert#0)
+//@ ensures[the-options-being-filled-are-returned] ret1 == nil ==> ret0 == &l.Options
